@@ -671,23 +671,35 @@ def shrink_candidates(case):
 
 MANIFEST = {
     "level_text": (
-        "Machine-checked proof (Coq 8.16), for all sizes and all integer inputs, that the extracted certificate checker "
-        "emd_cert_ok is sound: if it accepts (P, Q, C, penalty, d, F, alpha, beta, gamma) then d is exactly the "
-        "transportation optimum plus penalty*|sum P - sum Q| of the property text, and F is a feasible integral flow whose "
-        "cost reproduces d (weak duality; the dual point is found by an untrusted Bellman-Ford and only verified). The "
-        "checker is evaluated on the implementation's own full-flow output for every generated instance and every "
-        "variant; the no-flow and partial-flow variants and the gd_metric variants must return the same (unique, proved) "
-        "value. Zero padding is proved not to change the optimum (padding_invariant). An executable Gallina model of the "
-        "wrapper, of the graph reduction of emd_hat_impl.hpp and of a successive-shortest-path solver is compared exactly "
-        "(distance) with the freshly built implementation on the same instances, and cross-checked against vm_compute; every "
-        "answer of that model is proved to be the earth mover's distance (the model certifies its own full flow with "
-        "emd_cert_ok; that it always answers is observed, not proved). Also proved: the metric shortcut (diagonal pre-flow "
-        "keeps the optimum under the triangle inequality) and what an accepted partial flow guarantees. Tiny instances are "
-        "also compared with a brute-force enumeration of all integral flows."),
+        "Machine-checked proofs (Coq 8.16, 43 theorems, all closed under the global context). (a) The extracted certificate "
+        "checker emd_cert_ok is sound for all sizes and inputs: acceptance of (P, Q, C, penalty, d, F, alpha, beta, gamma) "
+        "implies that d is exactly the transportation optimum plus penalty*|sum P - sum Q| of the property text (also against "
+        "fractional flows) and that F is a feasible integral flow whose cost reproduces d; the value is unique; zero padding "
+        "and, for metric ground distances, the diagonal pre-flow of emd_hat_gd_metric do not change the optimum; an accepted "
+        "partial flow is a sub-flow of an optimal transport. The checker is evaluated on the implementation's own full-flow "
+        "output for every generated instance and variant (dual point found by an untrusted Bellman-Ford), and the no-flow, "
+        "partial-flow and gd_metric variants must return the same value. (b) Two executable Gallina models are compared with "
+        "the freshly built implementation on the same instances: an algorithm-level model that certifies its own answer "
+        "(every answer it gives is proved to be the earth mover's distance; that it always answers is observed), and a "
+        "LINE-LEVEL model of min_cost_flow.hpp (array heap, position table, reduced costs, pair-addressed capacity updates) on "
+        "top of the transcribed wrapper / graph reduction / read-back, which reproduces the implementation's distance AND flow "
+        "matrices exactly in every run. About the line-level solver it is proved: heap index safety, position-table "
+        "consistency, heap order and root minimum, the Dijkstra post-condition at the early exit, tightness of the predecessor "
+        "arcs, ghost node potentials (forward/backward entries of an arc carry opposite reduced costs) along the whole run, and "
+        "- under a run-time flag that the model records and the correspondence evaluates for every case (never set) - that all "
+        "residual arcs keep reduced cost >= 0 through every iteration, so that the final capacities satisfy complementary "
+        "slackness; fuel sufficiency; the book-keeping of transform_flow_to_regular. The pair addressing of augment is proved "
+        "wrong on graphs with anti-parallel arcs (kernel-evaluated non-terminating witness) and such graphs are proved "
+        "unreachable through emd_hat_impl's construction except at the artificial node."),
     "level_note": (
         "Trusted: Coq kernel + vm_compute; extraction (ExtrOcamlBasic only) and the S-expression driver; the Python harness. "
-        "Modelled, not verified: the C++ min-cost-flow heap code (the model solves the same reduced graph at algorithm "
-        "level); int32 overflow is excluded by generator bounds."),
-    "technique": "Coq proof of a certificate checker run on the implementation's output + executable model, exact differential correspondence",
+        "NOT proved (named in Props/C10.v): conservation of the capacity flow over the whole run and its equality with the "
+        "returned x lists (caps_flow_conserved, x_caps_consistent; the per-hop step is proved), hence min-cost optimality of the "
+        "line-level flow without a certificate; that the run never fails; the read_back / my_dist book-keeping through the node "
+        "renaming; that the artificial node is never used (the flag is never set: checked per case, 0 of ~150 000 runs). The "
+        "end-to-end statement therefore still rests on the certificate computed inside the algorithm-level model and on the "
+        "per-case certificate check of the implementation's output. int is modelled by Z; int32 overflow is excluded by "
+        "generator bounds."),
+    "technique": "Coq proof of a certificate checker run on the implementation's output + two executable models (certifying, and line-level with exact flow correspondence) + run-time-checked hypothesis flag",
     "design_ref": "DESIGN.md section 7, C10",
 }
